@@ -1,7 +1,7 @@
 #!/bin/bash
 # run every kept seeded change against the check of its property; record the verdict in seeded/<id>/meta.json
 cd /verif
-for d in seeded/*/; do
+for d in seeded/${SEED_GLOB:-*}/; do
   id=$(basename $d); prop=$(echo $id | grep -o "C[0-9][0-9]" | head -1)
   patch=/verif/$d/patch.diff; [ -f /verif/$d/patch_rebased.diff ] && patch=/verif/$d/patch_rebased.diff
   out=$(tools/try_seed.sh $patch $prop 2>&1)
